@@ -7,22 +7,54 @@ package transforms
 
 // The dispatcher is verified: whatever the image type, only the pixel buffer is written, and only by one of the three
 // conversion kernels below. The kernels themselves are floating-point code; their contracts are trusted frames.
+// imgW/imgH: ghost width/height of an image's Bounds(), defined with the hash functions (package imagehash).
 //@ func Rgb2GrayFast
 //@   props C19 C04
 //@   requires colorImg != nil && pixels != nil
+//@   requires [C19] imgW(colorImg) == imgH(colorImg) ==> (imgW(colorImg) == 64 && len(*pixels) >= 4096) || (imgW(colorImg) == 256 && len(*pixels) >= 65536)
 //@   modifies mem(*pixels)
+// origin correctness for every image type but YCbCr (whose kernel is a trusted frame): element (a, b) is the luminance of the pixel
+// at (Min.X + b, Min.Y + a)
+//@   ensures [C19] imgW(colorImg) == 64 && imgH(colorImg) == 64 && !is(colorImg, "*image.YCbCr") && !is(colorImg, "*image.RGBA") ==> forall a int, b int :: 0 <= a && a < 64 && 0 <= b && b < 64 ==> same((*pixels)[a*64+b], lumAt(colorImg, gconst("bminx", colorImg)+b, gconst("bminy", colorImg)+a))
+//@   ensures [C19] imgW(colorImg) == 256 && imgH(colorImg) == 256 && !is(colorImg, "*image.YCbCr") && !is(colorImg, "*image.RGBA") ==> forall a int, b int :: 0 <= a && a < 256 && 0 <= b && b < 256 ==> same((*pixels)[a*256+b], lumAt(colorImg, gconst("bminx", colorImg)+b, gconst("bminy", colorImg)+a))
+//@   ensures [C19] imgW(colorImg) == 64 && imgH(colorImg) == 64 && is(colorImg, "*image.RGBA") ==> forall a int, b int :: 0 <= a && a < 64 && 0 <= b && b < 64 ==> same((*pixels)[a*64+b], lumAt(colorImg, as(colorImg, "*image.RGBA").Rect.Min.X+b, as(colorImg, "*image.RGBA").Rect.Min.Y+a))
+//@   ensures [C19] imgW(colorImg) == 256 && imgH(colorImg) == 256 && is(colorImg, "*image.RGBA") ==> forall a int, b int :: 0 <= a && a < 256 && 0 <= b && b < 256 ==> same((*pixels)[a*256+b], lumAt(colorImg, as(colorImg, "*image.RGBA").Rect.Min.X+b, as(colorImg, "*image.RGBA").Rect.Min.Y+a))
 
 //@ func PixelYCnCRGray
 //@   trusted floating-point pixel conversion; only the frame (writes the pixel buffer) is used
 //@   modifies mem(pixels)
 
+// The luminance the kernels compute for the image pixel at (x, y): pixel2Gray of its colour channels. Floating-point operations
+// are uninterpreted, so this says WHICH pixel and WHICH formula, not what the number is.
+//@ spec lumAt(img, x, y) = 0.299*float64(uint32(gfun("pixR", img, x, y))/257) + 0.587*float64(uint32(gfun("pixG", img, x, y))/257) + 0.114*float64(uint32(gfun("pixB", img, x, y))/256)
+
+// Origin correctness (C19, "wherever its rectangle starts"): element (a, b) of the buffer is the luminance of the image pixel at
+// (Min.X + b, Min.Y + a), for the two buffer sizes the hashes use.
 //@ func rgb2GrayRGBA
-//@   trusted floating-point pixel conversion; only the frame (writes the pixel buffer) is used
+//@   props C19
+//@   requires colorImg != nil && (s == 64 || s == 256) && len(pixels) >= s*s
 //@   modifies mem(pixels)
+//@   ensures [C19] s == 64 ==> forall a int, b int :: 0 <= a && a < 64 && 0 <= b && b < 64 ==> same(pixels[a*64+b], lumAt(colorImg, colorImg.Rect.Min.X+b, colorImg.Rect.Min.Y+a))
+//@   ensures [C19] s == 256 ==> forall a int, b int :: 0 <= a && a < 256 && 0 <= b && b < 256 ==> same(pixels[a*256+b], lumAt(colorImg, colorImg.Rect.Min.X+b, colorImg.Rect.Min.Y+a))
+//@   loop 0 invariant 0 <= i && i <= s
+//@   loop 0 invariant s == 64 ==> forall a int, b int :: 0 <= a && a < i && 0 <= b && b < 64 ==> same(pixels[a*64+b], lumAt(colorImg, colorImg.Rect.Min.X+b, colorImg.Rect.Min.Y+a))
+//@   loop 0 invariant s == 256 ==> forall a int, b int :: 0 <= a && a < i && 0 <= b && b < 256 ==> same(pixels[a*256+b], lumAt(colorImg, colorImg.Rect.Min.X+b, colorImg.Rect.Min.Y+a))
+//@   loop 1 invariant 0 <= i && i < s && 0 <= j && j <= s
+//@   loop 1 invariant s == 64 ==> forall a int, b int :: 0 <= a && 0 <= b && b < 64 && (a < i || (a == i && b < j)) ==> same(pixels[a*64+b], lumAt(colorImg, colorImg.Rect.Min.X+b, colorImg.Rect.Min.Y+a))
+//@   loop 1 invariant s == 256 ==> forall a int, b int :: 0 <= a && 0 <= b && b < 256 && (a < i || (a == i && b < j)) ==> same(pixels[a*256+b], lumAt(colorImg, colorImg.Rect.Min.X+b, colorImg.Rect.Min.Y+a))
 
 //@ func rgb2GrayDefault
-//@   trusted floating-point pixel conversion; only the frame (writes the pixel buffer) is used
+//@   props C19
+//@   requires colorImg != nil && (s == 64 || s == 256) && len(pixels) >= s*s
 //@   modifies mem(pixels)
+//@   ensures [C19] s == 64 ==> forall a int, b int :: 0 <= a && a < 64 && 0 <= b && b < 64 ==> same(pixels[a*64+b], lumAt(colorImg, gconst("bminx", colorImg)+b, gconst("bminy", colorImg)+a))
+//@   ensures [C19] s == 256 ==> forall a int, b int :: 0 <= a && a < 256 && 0 <= b && b < 256 ==> same(pixels[a*256+b], lumAt(colorImg, gconst("bminx", colorImg)+b, gconst("bminy", colorImg)+a))
+//@   loop 0 invariant 0 <= i && i <= s
+//@   loop 0 invariant s == 64 ==> forall a int, b int :: 0 <= a && a < i && 0 <= b && b < 64 ==> same(pixels[a*64+b], lumAt(colorImg, gconst("bminx", colorImg)+b, gconst("bminy", colorImg)+a))
+//@   loop 0 invariant s == 256 ==> forall a int, b int :: 0 <= a && a < i && 0 <= b && b < 256 ==> same(pixels[a*256+b], lumAt(colorImg, gconst("bminx", colorImg)+b, gconst("bminy", colorImg)+a))
+//@   loop 1 invariant 0 <= i && i < s && 0 <= j && j <= s
+//@   loop 1 invariant s == 64 ==> forall a int, b int :: 0 <= a && 0 <= b && b < 64 && (a < i || (a == i && b < j)) ==> same(pixels[a*64+b], lumAt(colorImg, gconst("bminx", colorImg)+b, gconst("bminy", colorImg)+a))
+//@   loop 1 invariant s == 256 ==> forall a int, b int :: 0 <= a && 0 <= b && b < 256 && (a < i || (a == i && b < j)) ==> same(pixels[a*256+b], lumAt(colorImg, gconst("bminx", colorImg)+b, gconst("bminy", colorImg)+a))
 
 //@ func DCT2DHash64
 //@   trusted floating-point DCT; only the frame (transforms the pixel buffer in place, returns 64 coefficients) is used
